@@ -174,6 +174,14 @@ func (o *objectAttrAccessorStrategy) evaluate(m *MethodEvaluator) error {
 			return err
 		}
 
+		if nextT == nil {
+			if m.ctx.IsCheckRound() {
+				setAttrInfos(m, currentTs, defineRow)
+			}
+
+			return nil
+		}
+
 		switch nextT.ToString() {
 		case "\n":
 			m.parser.Unget()
